@@ -11,7 +11,7 @@ TRUSTED_BASE = [
     'a sample of every run\'s cases is re-evaluated inside Coq with vm_compute and compared with the extracted model',
 ]
 
-LOOP_RULE = 'histories of 5-40 events (plus a quiescing tail) through the PRODUCTION event loop on socketpairs with a real poller and task queue: 1-3 clients, 2-3 backend nodes (layouts: full coverage / an unowned slot / an undialable node / two nodes; optional password handshake; optional 15 ms request timeout; optional 60-byte limit); clients send 1-3 requests per read (single-key, MGET/DEL/MSET over several slots, PING, unknown command, wrong arity, QUIT, keys that make the fake backend answer an error / MOVED to a known node / MOVED to an unknown node / ASK), sometimes cut inside a request; task rounds; backends answer 1-3 pending fragments, sometimes with the reply cut in two reads; client closes; backend closes; timeout scans after a real sleep. Nondeterminism of the Go code (map iteration order within one request, dial order) is recorded from the run and given to the model as oracle. distinct = distinct history; non-trivial = history contains at least one of the tagged situations (input_distribution shows how often each occurred)'
+LOOP_RULE = 'histories of 5-40 events (plus a quiescing tail) through the PRODUCTION event loop on socketpairs with a real poller and task queue: 1-3 clients, 2-3 backend nodes (layouts: full coverage / an unowned slot / an undialable node / two nodes; optional password handshake; optional 15 ms request timeout; optional 60-byte limit); clients send 1-3 requests per read (single-key, MGET/DEL/MSET over several slots, PING, unknown command, wrong arity, QUIT, keys that make the fake backend answer an error / MOVED to a known node / MOVED to an unknown node / ASK, also inside split MGET/DEL/MSET), sometimes cut inside a request; task rounds; backends answer 1-3 pending fragments, sometimes with the reply cut in two reads; client closes; backend closes; timeout scans after a real sleep; plus deep-backlog histories (one slow request at the head, 1025-1224 completed replies behind it). Nondeterminism of the Go code (map iteration order within one request, dial order) is recorded from the run and given to the model as oracle. distinct = distinct history; non-trivial = history contains at least one of the tagged situations (input_distribution shows how often each occurred)'
 
 PROPS = {
     'C05': {
@@ -95,7 +95,8 @@ PROPS = {
     },
     'C02': {
         'props': 'Props/C02.v',
-        'suites': [{'name': 'cdecode', 'oracles': {'cdecode': 'o_reqs'}, 'trivial_tags': ['out-wait'], 'vm_sample': 40}, {'name': 'sdecode', 'trivial_tags': ['out-wait'], 'vm_sample': 40}, {'name': 'merge', 'oracles': {'merge': 'o_merge'}, 'trivial_tags': ['frags-1'], 'vm_sample': 25}],
+        'suites': [{'name': 'cdecode', 'oracles': {'cdecode': 'o_reqs'}, 'trivial_tags': ['out-wait'], 'vm_sample': 40}, {'name': 'sdecode', 'trivial_tags': ['out-wait'], 'vm_sample': 40}, {'name': 'merge', 'oracles': {'merge': 'o_merge'}, 'trivial_tags': ['frags-1'], 'vm_sample': 25},
+                   {'name': 'loop', 'oracles': {'loop': 'o_loop'}, 'trivial_tags': ['plain'], 'vm_sample': 6, 'sigs': ['backend-received-bytes-that-are-not-requests', 'reply-does-not-belong-to-the-request-at-its-position', 'event-loop-stopped']}],
         'rule': 'cdecode: every single-key command with empty/binary/CRLF-bearing arguments; sdecode: random RESP2 values to depth 4 (status, error, integer, bulk incl. 9/10/99/100/999/1000-byte, '
                 'null, arrays, null array), pipelined, every kind of prefix, mutated; handshake decoder on all splits of one and two +OK; merge: single-key round trips through the real loop',
         'explanation': 'Theorems: the single fragment is the client request with only the command name lower-cased (C02_request); every well-formed RESP2 value is framed exactly whatever follows '
@@ -105,7 +106,8 @@ PROPS = {
     },
     'C04': {
         'props': 'Props/C04.v',
-        'suites': [{'name': 'route', 'oracles': {'route': 'o_route'}, 'trivial_tags': ['live-0'], 'vm_sample': 40}],
+        'suites': [{'name': 'route', 'oracles': {'route': 'o_route'}, 'trivial_tags': ['live-0'], 'vm_sample': 40},
+                   {'name': 'cluster', 'oracles': {'cluster': 'o_cluster'}, 'trivial_tags': ['nodes-1', 'nodes-2'], 'vm_sample': 10, 'sigs': ['pool-set-or-pool-role-differs-from-latest-valid-description']}],
         'rule': 'listenServer.route for every command type of the table on fixed 0/2/3-replica sets (4 random seeds each, replica reads on/off) and on random sets of 0-4 replicas '
                 'with random pool presence / ban flag / ban-lift time on both sides of now; rand.Intn made reproducible by rand.Seed and its value for every possible argument passed to '
                 'the model as oracle; OnSOpened for passwords of several lengths x master/replica. distinct = distinct (set, type, seed); non-trivial = at least one live replica',
@@ -116,7 +118,8 @@ PROPS = {
     },
     'C20': {
         'props': 'Props/C20.v',
-        'suites': [{'name': 'route', 'oracles': {'route': 'o_route'}, 'trivial_tags': ['live-0'], 'vm_sample': 40}],
+        'suites': [{'name': 'route', 'oracles': {'route': 'o_route'}, 'trivial_tags': ['live-0'], 'vm_sample': 40},
+                   {'name': 'cluster', 'oracles': {'cluster': 'o_cluster'}, 'trivial_tags': ['nodes-1', 'nodes-2'], 'vm_sample': 10, 'sigs': ['topology-after-ticker-differs-from-latest-valid-description']}],
         'rule': 'as C04; the oracle checks that the node chosen for a read is exactly the k-th healthy replica for the recorded k = rand.Intn(|healthy|)',
         'explanation': 'Theorems: the choice is the k-th live replica (identity on the live list, hence every live replica is reachable and the map is injective); writes unaffected. '
                        'One genuine defect repaired (choice made inside the loop: only the first healthy replica ever served reads). Uniformity of math/rand is trusted.',
@@ -152,14 +155,14 @@ PROPS = {
     'C01': {
         'props': 'Props/C01.v',
         'suites': [{'name': 'loop', 'oracles': {'loop': 'o_loop'}, 'trivial_tags': ['plain'], 'vm_sample': 12, 'sigs': ['more-replies-than-requests', 'reply-does-not-belong-to-the-request-at-its-position', 'stray-bytes-after-the-last-reply', 'request-never-answered-and-connection-left-open', 'event-loop-stopped']}],
-        'rule': 'histories of 5-40 events (plus a quiescing tail) through the PRODUCTION event loop on socketpairs with a real poller and task queue: 1-3 clients, 2-3 backend nodes (layouts: full coverage / an unowned slot / an undialable node / two nodes; optional password handshake; optional 15 ms request timeout; optional 60-byte limit); clients send 1-3 requests per read (single-key, MGET/DEL/MSET over several slots, PING, unknown command, wrong arity, QUIT, keys that make the fake backend answer an error / MOVED to a known node / MOVED to an unknown node / ASK), sometimes cut inside a request; task rounds; backends answer 1-3 pending fragments, sometimes with the reply cut in two reads; client closes; backend closes; timeout scans after a real sleep. Nondeterminism of the Go code (map iteration order within one request, dial order) is recorded from the run and given to the model as oracle. distinct = distinct history; non-trivial = history contains at least one of the tagged situations (input_distribution shows how often each occurred)',
+        'rule': LOOP_RULE,
         'explanation': 'Theorem C01_replies_in_order, by an invariant proved inductive over every event of the event-loop model (CInvG): for every history the bytes a client has received are the replies of its requests 0..k-1 in order, one each, nothing else. Three genuine defects repaired (local replies overtook queued ones; QUIT dropped outstanding replies; flush only when the whole queue was done). The model is tied to the production loop by replaying recorded histories; the session oracle checks every client stream against the expected reply of each request by position.',
         'assumptions': ["backend replies are well-formed RESP2 and one per request written (wf_backend); a malformed or unsolicited backend reply makes the production loop spin (RHang in the model) - outside the property's environment", 'request objects are not reused in the model (after the repairs a late reply for a done fragment is dropped before the request is touched, so sync.Pool reuse is unobservable); the correspondence run exercises the real pool', 'sockets are append-only byte sinks in the model (partial writes / EPOLLOUT: property C19)'],
     },
     'C09': {
         'props': 'Props/C09.v',
         'suites': [{'name': 'loop', 'oracles': {'loop': 'o_loop'}, 'trivial_tags': ['plain'], 'vm_sample': 12, 'sigs': ['completed-reply-withheld-at-head-of-queue', 'event-loop-stopped']}],
-        'rule': 'histories of 5-40 events (plus a quiescing tail) through the PRODUCTION event loop on socketpairs with a real poller and task queue: 1-3 clients, 2-3 backend nodes (layouts: full coverage / an unowned slot / an undialable node / two nodes; optional password handshake; optional 15 ms request timeout; optional 60-byte limit); clients send 1-3 requests per read (single-key, MGET/DEL/MSET over several slots, PING, unknown command, wrong arity, QUIT, keys that make the fake backend answer an error / MOVED to a known node / MOVED to an unknown node / ASK), sometimes cut inside a request; task rounds; backends answer 1-3 pending fragments, sometimes with the reply cut in two reads; client closes; backend closes; timeout scans after a real sleep. Nondeterminism of the Go code (map iteration order within one request, dial order) is recorded from the run and given to the model as oracle. distinct = distinct history; non-trivial = history contains at least one of the tagged situations (input_distribution shows how often each occurred)',
+        'rule': LOOP_RULE,
         'explanation': 'Theorem C09_no_completed_head: for every history and every open client, at the end of each event the head of the queue is not a completed request - a deliverable reply is written in the event that completed it. One genuine defect repaired (flush gated on the whole queue being done). The wall-clock bound (epoll latency) is runtime behaviour outside the model; the stepper snapshot exposes the done flag of every queue head after each event.',
         'assumptions': ['as C01'],
     },
@@ -187,14 +190,14 @@ PROPS = {
     'C13': {
         'props': 'Props/C13.v',
         'suites': [{'name': 'loop', 'oracles': {'loop': 'o_loop'}, 'trivial_tags': ['plain'], 'vm_sample': 12, 'sigs': ['ask-redirect-without-asking', 'redirect-error-leaked-to-client', 'event-loop-stopped']}],
-        'rule': 'histories of 5-40 events (plus a quiescing tail) through the PRODUCTION event loop on socketpairs with a real poller and task queue: 1-3 clients, 2-3 backend nodes (layouts: full coverage / an unowned slot / an undialable node / two nodes; optional password handshake; optional 15 ms request timeout; optional 60-byte limit); clients send 1-3 requests per read (single-key, MGET/DEL/MSET over several slots, PING, unknown command, wrong arity, QUIT, keys that make the fake backend answer an error / MOVED to a known node / MOVED to an unknown node / ASK), sometimes cut inside a request; task rounds; backends answer 1-3 pending fragments, sometimes with the reply cut in two reads; client closes; backend closes; timeout scans after a real sleep. Nondeterminism of the Go code (map iteration order within one request, dial order) is recorded from the run and given to the model as oracle. distinct = distinct history; non-trivial = history contains at least one of the tagged situations (input_distribution shows how often each occurred)',
+        'rule': LOOP_RULE,
         'explanation': "Theorems: a MOVED/ASK reply for an open fragment naming a reachable node re-queues the fragment at the tail of that node's connection without touching any client or request; ordering/exactly-once by C01's theorem; every step is a total function. REFUTED for ASK (C13_ask_refuted): no ASKING precedes the re-sent request - recorded as known finding ask-redirect-without-asking. Late redirects for completed requests used to panic (repaired).",
         'assumptions': ["redirect chains are finite when the cluster's redirects are consistent (no hop bound exists: A->B->A loops forever) - assumption consistent_redirects", 'as C01'],
     },
     'C16': {
         'props': 'Props/C16.v',
-        'suites': [{'name': 'loop', 'oracles': {'loop': 'o_loop'}, 'trivial_tags': ['plain'], 'vm_sample': 12, 'sigs': ['reply-does-not-belong-to-the-request-at-its-position', 'request-never-answered-and-connection-left-open', 'more-replies-than-requests', 'event-loop-stopped']}],
-        'rule': 'histories of 5-40 events (plus a quiescing tail) through the PRODUCTION event loop on socketpairs with a real poller and task queue: 1-3 clients, 2-3 backend nodes (layouts: full coverage / an unowned slot / an undialable node / two nodes; optional password handshake; optional 15 ms request timeout; optional 60-byte limit); clients send 1-3 requests per read (single-key, MGET/DEL/MSET over several slots, PING, unknown command, wrong arity, QUIT, keys that make the fake backend answer an error / MOVED to a known node / MOVED to an unknown node / ASK), sometimes cut inside a request; task rounds; backends answer 1-3 pending fragments, sometimes with the reply cut in two reads; client closes; backend closes; timeout scans after a real sleep. Nondeterminism of the Go code (map iteration order within one request, dial order) is recorded from the run and given to the model as oracle. distinct = distinct history; non-trivial = history contains at least one of the tagged situations (input_distribution shows how often each occurred)',
+        'suites': [{'name': 'loop', 'oracles': {'loop': 'o_loop'}, 'trivial_tags': ['plain'], 'vm_sample': 12, 'sigs': ['request-not-completed-by-the-timeout-scan', 'reply-does-not-belong-to-the-request-at-its-position', 'request-never-answered-and-connection-left-open', 'more-replies-than-requests', 'event-loop-stopped']}],
+        'rule': LOOP_RULE,
         'explanation': 'Theorems: after a timeout scan every expired fragment is done and every request that had an un-done expired fragment is completed with the timeout error as its reply (C16_timeout_completes); delivered once in position (C01 invariant); late replies are dropped without touching anything; the queue is not blocked (C09 clause holds after the scan). One genuine defect repaired (the request was never completed: error out of order, queue blocked forever).',
         'assumptions': ['real time: the model has the scan as an event in which all in-flight fragments have expired; equal deadlines (LLRB replace-on-equal) and the fact that Polling runs the scan only after an epoll round with events are outside the model', 'as C01'],
     },
